@@ -303,6 +303,11 @@ class ConcurrentTaskSet : public TaskSetBase {
       F&& f,
       bool skipRecheck = false,
       float poolRecursiveLoadFactor = kDefaultPoolRecursiveLoadFactor) {
+    // A cancelled set starts no further bodies, whichever path (queued or one of the inline
+    // fallbacks below) this call would take; TaskSet::schedule tests the same thing first.
+    if (DISPENSO_EXPECT(canceled(), false)) {
+      return;
+    }
     if (cost_ == TaskCost::kHeavy) {
       schedulePlaced(std::forward<F>(f), skipRecheck, poolRecursiveLoadFactor);
       return;
